@@ -9,6 +9,7 @@ fields; and the canonical assignments form the parent-linked chain of a stored h
 Tie: correspondence stream `posa` of harness hlc (the real handlers on a real native service + CacheDB, really sealed
 headers over 16 secp256k1 keys, five routers) against drv_lc (the compiled model; ecrecover and hashes abstract).
 Search: the harness evaluates C29 directly on every stored header with an independent reference (plain parent walk).
+Stream `posamsc`: the msc (clique) handler, harness + independent clique reference only (no model, no theorem).
 """
 
 
@@ -27,7 +28,8 @@ def run(ctx):
     ctx.cov["trusted_base"] += ["harness hlc/posa + drv_lc (correspondence check)", "Lean compiler for the driver",
                                 "go-ethereum crypto (secp256k1 sign / recover) used by the harness to seal headers"]
     ctx.cov["not_covered"] = [
-        "msc (clique-style snapshot light client): not modelled, not driven",
+        "msc (clique-style snapshot light client with vote tally): NOT modelled in Lean; stream posamsc drives the real handler and "
+        "judges it with an independent clique reference only (no theorem covers msc)",
         "polygon bor (spans + snapshots + Heimdall span proofs): not modelled, not driven",
         "heco EIP-1559 branch (is120 && !needFix): not driven",
         "uint64 / int64 wrap-around of header numbers above 2^63",
